@@ -90,11 +90,29 @@ def select(fn: ast.AST, sel):
             hits.append((n.lineno, n.col_offset, n.value))
         elif kind == "kwarg" and isinstance(n, ast.keyword) and n.arg == sel[1]:
             hits.append((n.value.lineno, n.value.col_offset, n.value))
+        elif kind in ("subscript_index", "subscript_value") and isinstance(n, ast.Assign) and any(
+                isinstance(t, ast.Subscript) and ast.unparse(t.value) == sel[1] for t in n.targets):
+            # ("subscript_index", var, k) / ("subscript_value", var, k): mask / value of the k-th `var[mask] = value`
+            t = [t for t in n.targets if isinstance(t, ast.Subscript) and ast.unparse(t.value) == sel[1]][0]
+            hits.append((n.lineno, n.col_offset, t.slice if kind == "subscript_index" else n.value))
+        elif kind in ("slice_lower", "slice_upper") and isinstance(n, ast.Assign) and any(
+                isinstance(t, ast.Subscript) and isinstance(t.slice, ast.Slice) and ast.unparse(t.value) == sel[1]
+                for t in n.targets):
+            # ("slice_lower"|"slice_upper", var, k): that bound of the k-th `var[lo:hi] = value` which has such a bound
+            t = [t for t in n.targets if isinstance(t, ast.Subscript) and isinstance(t.slice, ast.Slice)
+                 and ast.unparse(t.value) == sel[1]][0]
+            b = t.slice.lower if kind == "slice_lower" else t.slice.upper
+            if b is not None:
+                hits.append((n.lineno, n.col_offset, b))
         elif kind == "iftest" and isinstance(n, (ast.If, ast.IfExp, ast.While)) and (
                 len(sel) == 2 or sel[1] in ast.unparse(n.test)):
             # ("iftest", k) / ("iftest", substring, k): the test of the k-th `if`/`elif`/conditional
             # expression/`while` of the function (whose source contains `substring`)
             hits.append((n.test.lineno, n.test.col_offset, n.test))
+        elif kind == "elt" and isinstance(n, (ast.GeneratorExp, ast.ListComp)) and (
+                len(sel) == 2 or sel[1] in ast.unparse(n.elt)):
+            # ("elt", k) / ("elt", substring, k): the element expression of the k-th comprehension
+            hits.append((n.lineno, n.col_offset, n.elt))
         elif kind == "callarg" and isinstance(n, ast.Call) and len(n.args) > sel[2] and (
                 (isinstance(n.func, ast.Name) and n.func.id == sel[1])
                 or (isinstance(n.func, ast.Attribute) and n.func.attr == sel[1])):
@@ -130,12 +148,22 @@ FUNCS = {
     "clip": ("pyClip", "pyClipR", "pyClipF"),
 }
 MODE_IDX = {"rat": 0, "real": 1, "float": 2}
-SCALAR = {"rat": "Rat", "real": "ℝ", "float": "Float"}
+SCALAR = {"rat": "Rat", "real": "ℝ", "float": "Float", "cplx": "ℂ"}
+# mode "cplx" (Gen/<M>C.lean): everything is read over ℂ (real parameters are coerced by the site's params_map), `1.0j` -> Complex.I
+CPLX_FUNCS = {"cos": "Complex.cos", "sin": "Complex.sin", "exp": "Complex.exp", "conjugate": "(starRingEnd ℂ)", "conj": "(starRingEnd ℂ)"}
 
 
 def lit(value, mode: str, text: str | None = None) -> str:
     if isinstance(value, bool):
         return "true" if value else "false"
+    if isinstance(value, complex):
+        if mode != "cplx" or value.real != 0:
+            raise Unsupported(f"complex literal {value!r} in mode {mode}")
+        f = Fraction(repr(value.imag))
+        return f"((({f.numerator} : ℂ) / {f.denominator}) * Complex.I)"
+    if mode == "cplx":
+        f = Fraction(text) if (text is not None and isinstance(value, float)) else Fraction(repr(value))
+        return f"(({f.numerator} : ℂ) / {f.denominator})" if f.denominator != 1 else f"({f.numerator} : ℂ)"
     if isinstance(value, int):
         if mode == "float":
             return f"({value} : Float)" if value >= 0 else f"(-{-value} : Float)"
@@ -166,6 +194,10 @@ class Tx:
         self.site = None  # set by emitters; sites with "ext": True route through tools/py2lean_ext.py first
 
     def f(self, name):
+        if self.mode == "cplx":
+            if name not in CPLX_FUNCS:
+                raise Unsupported(f"function {name} in mode cplx")
+            return CPLX_FUNCS[name]
         if name not in FUNCS or FUNCS[name][MODE_IDX[self.mode]] is None:
             raise Unsupported(f"function {name} in mode {self.mode}")
         return FUNCS[name][MODE_IDX[self.mode]]
@@ -194,7 +226,7 @@ class Tx:
             raise Unsupported(f"free name {n.id}")
         if isinstance(n, ast.Attribute):
             if key in ("np.pi", "math.pi", "xp.pi", "numpy.pi"):
-                return {"rat": None, "real": "Real.pi", "float": "(3.141592653589793 : Float)"}[self.mode] or self._bad("pi in rat mode")
+                return {"rat": None, "real": "Real.pi", "float": "(3.141592653589793 : Float)", "cplx": "(Real.pi : ℂ)"}[self.mode] or self._bad("pi in rat mode")
             raise Unsupported(f"attribute {key}")
         if isinstance(n, ast.UnaryOp):
             if isinstance(n.op, ast.USub):
@@ -203,6 +235,9 @@ class Tx:
                 return self.e(n.operand)
             if isinstance(n.op, ast.Not):
                 return f"(!{self.e(n.operand)})"
+        if isinstance(n, ast.BinOp) and isinstance(n.op, ast.Mult) and isinstance(n.left, (ast.List, ast.Tuple)):
+            # sequence repetition `[a, b] * n` / `(a,) * n` -> pyRepeat [a, b] n  (PyPrelude; n <= 0 gives the empty list)
+            return f"(pyRepeat [{', '.join(self.e(x) for x in n.left.elts)}] {self.e(n.right)})"
         if isinstance(n, ast.BinOp):
             a, b = self.e(n.left), self.e(n.right)
             if isinstance(n.op, ast.Add):
@@ -247,6 +282,12 @@ class Tx:
                     kw = {k.arg: k.value for k in n.keywords}
                     return f"({self.f('clip')} {self.e(n.args[0])} {self.e(kw['a_min'])} {self.e(kw['a_max'])})"
                 raise Unsupported(f"call {key}")
+            if name == "range" and len(n.args) == 1 and isinstance(fn, ast.Name):  # range(n) -> [0, …, n-1] : List Int
+                return f"(pyRange {self.e(n.args[0])})"
+            if name in ("tuple", "list") and len(n.args) == 1 and isinstance(fn, ast.Name):  # sequences are Lean lists
+                return self.e(n.args[0])
+            if name == "where" and len(n.args) == 3:  # numpy.where(cond, a, b), pointwise
+                return f"(if {self.e(n.args[0])} then {self.e(n.args[1])} else {self.e(n.args[2])})"
             lf = self.f(name)
             args = " ".join(self.e(a) for a in n.args)
             if name == "float":
@@ -254,6 +295,8 @@ class Tx:
             return f"({lf} {args})"
         if isinstance(n, ast.Tuple):
             return "(" + ", ".join(self.e(x) for x in n.elts) + ")"
+        if isinstance(n, ast.List):  # list display -> Lean list literal
+            return "[" + ", ".join(self.e(x) for x in n.elts) + "]"
         raise Unsupported(f"node {type(n).__name__}: {key[:80]}")
 
     def _bad(self, msg):
@@ -265,8 +308,9 @@ PRELUDE_IMPORT = {
     "rat": "import AbtemVerif.Model.PyPrelude",
     "real": "import AbtemVerif.Lib.PyPreludeR",
     "float": "import AbtemVerif.Model.PyPrelude",
+    "cplx": "import AbtemVerif.Lib.PyPreludeR",
 }
-SUFFIX = {"rat": "", "real": "R", "float": "F"}
+SUFFIX = {"rat": "", "real": "R", "float": "F", "cplx": "C"}
 
 
 def emit_site(src: Source, site: dict, mode: str):
@@ -285,7 +329,7 @@ def emit_site(src: Source, site: dict, mode: str):
     ptys = site.get("param_types", {})
     binders = " ".join(f"({p} : {ptys.get(p, sc).replace('Scalar', sc)})" for p in site["params"])
     rty = site.get("ret", "Scalar").replace("Scalar", sc)
-    nc = "noncomputable " if mode == "real" else ""
+    nc = "noncomputable " if mode in ("real", "cplx") else ""
     head = f"/-- {site['file']}:{node.lineno} `{site['func']}` :: `{ast.unparse(node)[:300]}` -/\n"
     return head + f"{nc}def {site['name']} {binders} : {rty} :=\n  {body}\n", {
         "line": node.lineno,
@@ -300,7 +344,33 @@ def table_value(node, mode, consts):
     return tx.e(node)
 
 
+def yaml_scalar(text: str, dotted: str) -> str:
+    """value text of `a.b.c` in a plain block-style YAML file (nested mappings by indentation; no PyYAML needed)"""
+    path, want = [], dotted.split(".")
+    for raw in text.splitlines():
+        line = raw.split(" #")[0].rstrip()
+        if not line.strip() or line.lstrip().startswith("#") or ":" not in line:
+            continue
+        ind = len(line) - len(line.lstrip())
+        k, v = line.strip().split(":", 1)
+        while path and path[-1][0] >= ind:
+            path.pop()
+        path.append((ind, k.strip()))
+        if [p[1] for p in path] == want and v.strip():
+            return v.strip().strip('"').strip("'")
+    raise Unsupported(f"yaml key {dotted} not found")
+
+
 def emit_table(src: Source, site: dict, mode: str):
+    if site["kind"] == "yaml_scalar":  # numeric default of the configuration file, read as the exact decimal written
+        val = yaml_scalar((src.repo / site["file"]).read_text(), site["var"])
+        try:
+            body = lit(float(val), mode, val)
+        except ValueError:
+            raise Unsupported(f"yaml value {val!r} is not numeric")
+        nc = "noncomputable " if mode in ("real", "cplx") else ""
+        return (f"/-- {site['file']} `{site['var']}: {val}` -/\n{nc}def {site['name']} : {SCALAR[mode]} :=\n  {body}\n",
+                {"value": val, "sha": hashlib.sha256(val.encode()).hexdigest()[:16]})
     tree = src.tree(site["file"])
     target = None
     for n in tree.body:
@@ -377,6 +447,9 @@ def main():
                     import py2lean_ext
 
                     text, info = py2lean_ext.emit_func(src, site, mode) if site.get("whole") else py2lean_ext.emit_module_consts(site, mode)
+                elif site.get("emitter"):  # "module:function" in tools/ — property-specific emitters live outside this file
+                    em_mod, em_fn = site["emitter"].split(":")
+                    text, info = getattr(importlib.import_module(em_mod), em_fn)(src, site, mode)
                 elif site.get("table"):
                     text, info = emit_table(src, site, mode)
                 else:
